@@ -9,5 +9,6 @@ MCNoRemove == {"HEAD"}
 I0 == [n \in MCNames |-> IF n = "HEAD" THEN "sym:refs/heads/a" ELSE "none"]
 I1 == [I0 EXCEPT !["refs/heads/a"] = "h1"]
 I2 == [I1 EXCEPT !["refs/tags/t"] = "h2", !["refs/remotes/o/HEAD"] = "sym:refs/heads/a"]
-MCInits == {I0, I1, I2}
+I3 == [I1 EXCEPT !["refs/tags/t"] = "h2"]
+MCInits == {I0, I1, I2, I3}
 =============================================================================
